@@ -70,6 +70,21 @@ fn lua_bin() -> PathBuf {
 fn program(kind: &str, no_std: bool, variant: u64, seed: u64) -> String {
     // std-free programs observe through <=> only
     match (kind, no_std) {
+        // programs whose emitted Lua has very long lines (a 12 kB string literal, a 1500-element list)
+        // preceded by a varying amount of code: output is written in chunks, every byte has to arrive
+        ("accepted", false) if variant == 7 => {
+            let pad: String = (0..(seed % 23)).map(|k| format!("    p{} := {} + {}\n", k, k, seed % 97)).collect();
+            format!("start :: fn do\n{}    s := \"{}\"\n    print(s == s)\n    t := \"{}\"\n    print(t == s)\nend\n", pad, "x".repeat(12_000), "yz".repeat(1_700))
+        }
+        ("accepted", false) if variant == 8 => {
+            let pad: String = (0..(seed % 17)).map(|k| format!("    p{} := {} * 3\n", k, k)).collect();
+            let list: String = (0..1500).map(|k| k.to_string()).collect::<Vec<_>>().join(", ");
+            format!("start :: fn do\n{}    l := [{}]\n    print(list.len(l))\n    u := \"{}\"\n    print(u == u)\nend\n", pad, list, "q".repeat(3_000))
+        }
+        ("accepted", true) if variant >= 7 => {
+            let pad: String = (0..(seed % 19 + variant)).map(|k| format!("    p{} := {} + 1\n", k, k)).collect();
+            format!("start :: fn do\n{}    s := \"{}\"\n    s <=> s\n    t := \"{}\"\n    t <=> t\nend\n", pad, "x".repeat(9_000 + 1000 * variant as usize), "w".repeat(2_500))
+        }
         ("accepted", false) => {
             if variant == 0 {
                 "start :: fn do\n    x := 1 + 2\n    print(x)\n    x <=> 3\nend\n".to_string()
@@ -398,7 +413,7 @@ impl Check for C20 {
         }
         Finish {
             level: "fault_enumeration",
-            rule: "exhaustive matrix: {run (lua on PATH = luamon CLI), -o FILE, -o -} x {no --require, --require mymod.lua, --require pkg.sub (dotted submodule), --require plain} x {--no-std, std} x {accepted, rejected, fails <=>, reaches <!>} x (for -o FILE) {FILE absent, present with short old content, present with a larger earlier build result, in a missing directory, in a read-only directory, is a directory}, 3 program variants per cell (hand-written and generated). Oracle per cell: exit status 0 iff compile (and run) succeed and the output is writable; errors printed; FILE byte-equal to the in-process compilation or untouched on failure; -o - stdout byte-equal; exactly one `require` call naming M (without a trailing .lua), placed after the preamble marker and not after the first emitted statement, executed once; std-free programs behave the same with and without --no-std. Non-trivial & distinct: matrix cells.".into(),
+            rule: "exhaustive matrix: {run (lua on PATH = luamon CLI), -o FILE, -o -} x {no --require, --require mymod.lua, --require pkg.sub (dotted submodule), --require plain} x {--no-std, std} x {accepted, rejected, fails <=>, reaches <!>} x (for -o FILE) {FILE absent, present with short old content, present with a larger earlier build result, in a missing directory, in a read-only directory, is a directory}, 9 program variants per cell (hand-written, generated, and programs whose emitted Lua has 3-12 kB lines). Oracle per cell: exit status 0 iff compile (and run) succeed and the output is writable; errors printed; FILE byte-equal to the in-process compilation or untouched on failure; -o - stdout byte-equal; exactly one `require` call naming M (without a trailing .lua), placed after the preamble marker and not after the first emitted statement, executed once; std-free programs behave the same with and without --no-std. Non-trivial & distinct: matrix cells.".into(),
             extra: J::obj().with("matrix_cells", J::Int(cells().len() as i64)),
             assumptions: vec![
                 "the `lua` the driver spawns is the luamon CLI (no real Lua in the sandbox); when running as root a read-only directory is writable, that column then expects success".into(),
